@@ -9,9 +9,32 @@ ALL = WINDOW + ["PiecewiseConstantRFA", "CubicSplineRFA"]
 K1_EXP_LIMIT = 0.132954
 
 
+_USER_CLASSES = {}
+
+
 def cls(name):
+    """The strategy class of that name - or, for a deterministic share of the requests of a case, a USER class derived
+    from it in the documented way (subclass whose constructor forwards its arguments): the strategies are an open
+    family, `rfa_class` takes any class with that interface, and everything promised for a library strategy holds for
+    a subclass that only adds a label.  The variant depends on the current case only, so a replay sees the same."""
     from traffic_weaver import rfa
-    return getattr(rfa, name)
+    from .. import core
+    base = getattr(rfa, name)
+    core.CASE_CALLS["cls"] = core.CASE_CALLS.get("cls", 0) + 1
+    v = (core.CASE_SALT // 7 + core.CASE_CALLS["cls"]) % 6
+    if v not in (3, 5):
+        return base
+    key = (name, v)
+    if key not in _USER_CLASSES:
+        if v == 3:
+            def __init__(self, x, y, n, *args, label="", **kwargs):      # adds a keyword of its own, forwards the rest
+                base.__init__(self, x, y, n, *args, **kwargs)
+                self.label = label
+        else:
+            def __init__(self, *args, **kwargs):
+                base.__init__(self, *args, **kwargs)
+        _USER_CLASSES[key] = type("User" + name, (base,), {"__init__": __init__, "__module__": __name__})
+    return _USER_CLASSES[key]
 
 
 def gen_params(rng, kind, n, smooth_free=True, exp_hi=4.0):
@@ -90,6 +113,15 @@ def run(kind, x, y, n, kw, rng=None):
         callform.scribble(first, [])
     if rng is not None and rng.integers(0, 3) == 0:
         x = gen.as_container(rng, x)[0]         # the abscissae in any of the containers (the constructor converts on entry)
+    if rng is not None and rng.integers(0, 5) == 0:
+        # the same request through the Weaver: recreate_from_average(n, rfa_class, **parameters) builds the strategy
+        # (library class or a user class derived from it) and returns its series
+        from traffic_weaver import Weaver
+        wv = Weaver(x, y)
+        ret = wv.recreate_from_average(n, rfa_class=cls(kind), **kw)
+        if ret is not wv:
+            raise AssertionError("recreate_from_average did not return the Weaver")
+        return wv.get()
     obj = build(rng, kind, x, y, n, kw)
     if rng is not None and rng.integers(0, 4) == 0:
         n2 = gen_n(rng)
